@@ -40,7 +40,7 @@ def sh(cmd, timeout=600, cwd=None, env=None, input=None):
 
 def impl_env():
     return {
-        "PYTHONPATH": REPO,
+        "PYTHONPATH": REPO + ":" + os.path.join(VERIF, "tools", "impl"),
         "PYTHONHASHSEED": "0",
         "PYTHONDONTWRITEBYTECODE": "1",
         "PYCCOLO_VERIF": "1",
